@@ -410,11 +410,43 @@ def _theta_bits(q):
 
 
 # ------------------------------------------------------------------ one scenario
-def _centi(x: float) -> int:
-    v = round(x * 100)
-    if abs(v) > LIMIT:
-        raise tlc.MachineryError("cost does not fit 32 bits (x100); use a smaller architecture")
-    return int(v)
+def _centi(x: float):
+    """(round(100 x), representable): a cost that is not finite or does not fit 32 bits (x100) is NOT an error of the
+    harness - it is reported to the trace spec (clause C05.cost ... not representable)."""
+    if x != x or abs(x) == float("inf") or abs(x) * 100 >= LIMIT:
+        return 0, False
+    return int(round(x * 100)), True
+
+
+def _fingerprint(m, recs) -> Dict[str, str]:
+    """State of the MODEL that a cost evaluation must not touch: every tensor of state_dict() (parameters, theta_alpha,
+    temperature, the constants / masks registered by the features calculators, quantiser ranges), the value the input
+    features calculator of every layer reports, and the plain hyper-parameter attributes of every layer."""
+    import hashlib
+    import torch
+    fp: Dict[str, str] = {}
+    for k, v in m.state_dict().items():
+        tv = v.detach().contiguous().cpu()
+        fp["state_dict:" + k] = hashlib.sha1(tv.numpy().tobytes()).hexdigest() + str(tuple(tv.shape)) + str(tv.dtype)
+    for n, r in recs.items():
+        lay = r["layer"]
+        try:
+            f = lay.input_features_calculator.features
+            fp[f"features_calculator:{r['name']}"] = repr(f.detach().cpu().tolist() if isinstance(f, torch.Tensor) else f)
+        except Exception as e:      # pragma: no cover - reported as a changed key
+            fp[f"features_calculator:{r['name']}"] = "raised " + type(e).__name__
+        for a_ in ("in_channels", "out_channels", "in_features", "out_features", "kernel_size", "stride", "padding", "dilation",
+                   "groups", "padding_mode", "training"):
+            if hasattr(lay, a_):
+                fp[f"attr:{r['name']}.{a_}"] = repr(getattr(lay, a_))
+    return fp
+
+
+def _first_diff(a: Dict[str, str], b: Dict[str, str]) -> str:
+    for k in sorted(set(a) | set(b)):
+        if a.get(k) != b.get(k):
+            return k
+    return ""
 
 
 def run(sc: Dict[str, Any], cache: Optional[Dict[str, Any]] = None) -> Dict[str, Any]:
@@ -438,7 +470,7 @@ def run(sc: Dict[str, Any], cache: Optional[Dict[str, Any]] = None) -> Dict[str,
         return {"prop": sc.get("prop", "C02"), "arch": norm_arch(sc["arch"]), "cfg": sc["cfg"], "build_ok": False,
                 "build_err": B["err"], "L": [], "metrics": [], "cost": {}, "cost_ok": {}, "probe": False, "conflict": False,
                 "export_done": False, "export_ok": False, "export_err": "", "bit_identical": False, "y_varies": False,
-                "maxdiff_e6": 0, "mode": sc.get("mode", "eval"), "hist": [], "hist_err": "", "cost2": {}, "cost2_ok": {}, "fresh_model": True, "exports": [], "batch": int(sc.get("batch", 0)),
+                "maxdiff_e6": 0, "mode": sc.get("mode", "eval"), "hist": [], "hist_err": "", "cost2": {}, "cost2_ok": {}, "cost_rep": {}, "cost2_rep": {}, "frame_changed": "", "frame_keys": 0, "fresh_model": True, "exports": [], "batch": int(sc.get("batch", 0)),
                 "full": bool(sc.get("full", False))}
     m, recs, arch, probe = B["m"], B["recs"], B["arch"], B["probe"]
     rng = random.Random(sc.get("seed", 0) * 7919 + 13)
@@ -562,7 +594,57 @@ def run(sc: Dict[str, Any], cache: Optional[Dict[str, Any]] = None) -> Dict[str,
                     S["written"][id(q_)] = (kind_, int(torch.argmax(a_)) if a_.dim() == 1 else [int(i) for i in torch.argmax(a_, dim=0)])
             _fill_want(want, S["written"], recs, sh)
 
+    def fork():
+        """obj := deepcopy(obj); the ORIGINAL is then perturbed (other coefficients, other sampler options / temperature,
+        forward passes in eval and in training mode); the history continues on the COPY."""
+        nonlocal m, recs, B
+        import copy as _copy
+        m2 = _copy.deepcopy(m)
+        mods2 = dict(m2.seed.named_modules())
+        recs2 = {n_: {"name": r_["name"], "layer": mods2[r_["name"]], "kind": r_["kind"]} for n_, r_ in recs.items()}
+        w2 = {}
+        for n_, r_ in recs.items():
+            for attr in ("out_mps_quantizer", "w_mps_quantizer"):
+                q_, q2_ = getattr(r_["layer"], attr, None), getattr(recs2[n_]["layer"], attr, None)
+                if q_ is not None and id(q_) in S["written"]:
+                    w2[id(q2_)] = S["written"][id(q_)]
+        if probe:
+            for n_, r_ in recs2.items():
+                w_ = getattr(r_["layer"], "weight", None)
+                if w_ is not None:
+                    probe.by_weight[id(w_)] = n_
+        # ---- perturb the original
+        was_training = m.training
+        load_new_alphas(B, dict(S["written"]), rng, "copy")
+        m.update_softmax_options(temperature=round(0.05 * (400.0 ** rng.random()), 3), hard=True, gumbel=rng.random() < 0.5)
+        with torch.no_grad():
+            m.eval()
+            m(xs[0])
+            m.train()
+            m(xs[1])
+        m.train(was_training)
+        # ---- continue on the copy
+        B = dict(B, m=m2, recs=recs2)
+        m, recs = m2, recs2
+        S["written"] = w2
+        if cache is not None:
+            cache.pop("key", None)          # the cached model was perturbed: the next scenario builds a new one
+
+    def load_temperature():
+        sd = m.state_dict()
+        new_t = round(0.05 * (400.0 ** rng.random()), 3)
+        for key in list(sd):
+            if key.endswith(".temperature"):
+                sd[key] = torch.tensor(new_t, dtype=sd[key].dtype)
+        m.load_state_dict(sd)
+
     def do(act):
+        if act == "fork":
+            fork()
+            return
+        if act == "loadT":
+            load_temperature()
+            return
         if act in ("fwd_eval", "to_eval"):
             m.eval()
         elif act in ("fwd_hard", "to_hard"):
@@ -607,21 +689,24 @@ def run(sc: Dict[str, Any], cache: Optional[Dict[str, Any]] = None) -> Dict[str,
     t["hist_err"] = hist_err
     # ---- costs (in the state the history left) read in the given order, then again in the reverse order
     def read(names):
-        out, ok = {}, {}
+        out, ok, rep = {}, {}, {}
         for name in names:
             try:
                 c = float(m.get_cost(name))
-                fin = c == c and abs(c) != float("inf")
-                out[name] = _centi(c) if fin else 0
-                ok[name] = bool(fin)
-            except (AssertionError, KeyError, ValueError, RuntimeError, TypeError, IndexError):
-                out[name] = 0
-                ok[name] = False
-        return out, ok
+                out[name], rep[name] = _centi(c)
+                ok[name] = True
+            except tlc.MachineryError:
+                raise
+            except Exception:           # get_cost raised: reported to the trace spec (required only where the metric is defined)
+                out[name], ok[name], rep[name] = 0, False, False
+        return out, ok, rep
 
     names = list(sc.get("metrics", []))
-    t["cost"], t["cost_ok"] = read(names)
-    t["cost2"], t["cost2_ok"] = read(list(reversed(names)))
+    fp0 = _fingerprint(m, recs)
+    t["cost"], t["cost_ok"], t["cost_rep"] = read(names)
+    fp1 = _fingerprint(m, recs)
+    t["cost2"], t["cost2_ok"], t["cost2_rep"] = read(list(reversed(names)))
+    fp2 = _fingerprint(m, recs)
     t["metrics"] = names
     t["full"] = bool(sc.get("full", False))
     # ---- the assignment the sampled coefficients encode at the moment the cost was read
@@ -642,6 +727,9 @@ def run(sc: Dict[str, Any], cache: Optional[Dict[str, Any]] = None) -> Dict[str,
             t["probe_err"] = f"{type(e).__name__}: {e}"[:200]
         for c in probe.calls:
             shown.setdefault(c["node"], []).append(c)
+    fp3 = _fingerprint(m, recs)
+    t["frame_changed"] = _first_diff(fp0, fp1) or _first_diff(fp1, fp2) or _first_diff(fp2, fp3)
+    t["frame_keys"] = len(fp0)
     # ---- bit-identity: every compared export of the history (eval mode, float32, one thread)
     bit_identical = all(e["bit"] for e in exports) if exports else True
     maxdiff = max([e["diff"] for e in exports] or [0]) / 1e6
@@ -754,7 +842,7 @@ def run(sc: Dict[str, Any], cache: Optional[Dict[str, Any]] = None) -> Dict[str,
                 if any(k in c["keys"] for k in other):
                     rec["pr_foreign"] = True
             if len(vals) == 1:
-                rec["pr_in"], rec["pr_out"] = [int(v) for v in vals.pop()]
+                rec["pr_in"], rec["pr_out"] = [int(max(min(v, LIMIT - 1), 1 - LIMIT)) for v in vals.pop()]
             elif len(vals) > 1:
                 rec["pr_consistent"] = False
         L.append(rec)
@@ -1004,9 +1092,10 @@ def _take(lst, k, rng):
 
 
 HIST_ACTS = ["fwd_eval", "fwd_hard", "fwd_ghard", "load", "export", "summary", "upd",
-             "to_eval", "to_hard", "to_ghard", "fwd_n", "fwd_g", "fwd_n", "fwd_g", "copy", "data", "sgd_net", "sgd_all"]
+             "to_eval", "to_hard", "to_ghard", "fwd_n", "fwd_g", "fwd_n", "fwd_g", "copy", "data", "sgd_net", "sgd_all",
+             "fork", "loadT"]
 C02_ACTS = ["to_eval", "to_eval", "to_hard", "to_ghard", "fwd_n", "fwd_n", "fwd_g", "load", "copy", "data", "sgd_net", "sgd_net",
-            "sgd_all", "export!", "export!", "summary", "upd"]
+            "sgd_all", "export!", "export!", "summary", "upd", "fork", "loadT"]
 
 
 def _options(pid: str, cfg: Dict[str, Any], rng: random.Random, dim: int = 2, p_hist: float = 0.0) -> Dict[str, Any]:
@@ -1072,7 +1161,7 @@ def _corrupt(tr, pid, rng):
         else:
             r["am_o"] = 2 if r["am_o"] != 2 else 4
     else:
-        kind = rng.choice(["cost", "cost", "pr_in", "pr_out", "th_w", "cost2"])
+        kind = rng.choice(["cost", "cost", "pr_in", "pr_out", "th_w", "cost2", "frame", "rep"])
         r = rng.choice(layers)
         if kind == "cost":
             m = rng.choice([x for x in c["metrics"] if x in ("params_bit", "ops_bit")])     # defined on every model
@@ -1081,6 +1170,10 @@ def _corrupt(tr, pid, rng):
             r["pr_in"] += 1000
         elif kind == "pr_out":
             r["pr_out"] += 1000
+        elif kind == "frame":
+            c["frame_changed"] = "state_dict:seed.layers.n1.feat_calc_const"
+        elif kind == "rep":
+            c["cost_rep"][rng.choice([x for x in c["metrics"] if x in ("params_bit", "ops_bit")])] = False
         elif kind == "cost2":
             m = rng.choice([x for x in c["metrics"] if x in ("params_bit", "ops_bit")])
             c["cost2"][m] = c["cost2"][m] + max(200, abs(c["cost2"][m]) // 50)
@@ -1194,11 +1287,15 @@ def run_check(pid: str, tier: str, seed: int, replay: Optional[str], plan: Dict[
     if pid == "C02":
         pinned = [["fwd_n", "copy", "export!"], ["fwd_n", "load", "fwd_n", "export!"], ["fwd_g", "data", "export!"],
                   ["export!", "sgd_net", "export!"], ["export!", "sgd_net", "sgd_net", "export!", "sgd_all", "export!"],
-                  ["to_hard", "fwd_g", "copy", "to_eval", "fwd_n", "data", "export!", "sgd_net", "to_eval", "fwd_n", "export!"]]
+                  ["to_hard", "fwd_g", "copy", "to_eval", "fwd_n", "data", "export!", "sgd_net", "to_eval", "fwd_n", "export!"],
+                  ["fwd_n", "fork", "copy", "export!"], ["fork", "load", "fwd_n", "export!", "sgd_net", "export!"],
+                  ["fwd_n", "loadT", "fork", "data", "fwd_n", "export!"]]
     else:
         pinned = [["fwd_n", "copy", "fwd_n"], ["fwd_n", "load", "fwd_n"], ["fwd_n", "data", "fwd_n"], ["fwd_g", "copy", "fwd_g"],
                   ["to_hard", "fwd_n", "copy", "fwd_n"], ["to_hard", "fwd_g", "data", "to_eval", "fwd_n", "load", "fwd_n"],
-                  ["fwd_n", "sgd_net", "to_eval", "fwd_n", "copy", "fwd_n"], ["to_ghard", "fwd_n", "to_eval", "fwd_n", "data", "fwd_g"]]
+                  ["fwd_n", "sgd_net", "to_eval", "fwd_n", "copy", "fwd_n"], ["to_ghard", "fwd_n", "to_eval", "fwd_n", "data", "fwd_g"],
+                  ["fwd_n", "fork", "copy", "fwd_n"], ["fork", "fwd_n"], ["to_hard", "fwd_g", "fork", "data", "fwd_g"],
+                  ["fwd_n", "fork", "loadT", "load", "fwd_n"], ["fwd_n", "loadT", "fwd_n"]]
     prng = random.Random(seed + 4242)
     for k in range(plan.get("n_pinned_archs", 4)):
         dim = 1 if k % 3 == 2 else 2
@@ -1206,6 +1303,9 @@ def run_check(pid: str, tier: str, seed: int, replay: Optional[str], plan: Dict[
         arch = random_mps_arch(prng, 6, dim, False)
         while pc and not pc_ok(arch):
             arch = random_mps_arch(prng, 6, dim, False)
+        if k == 0:          # depthwise conv fed by the network input (its input features come from a constant calculator)
+            arch = norm_arch({"dim": 2, "c0": 3, "sp": 4, "nodes": [{"op": "conv", "ins": [0], "dw": True, "k": 3}, {"op": "conv", "ins": [1], "out": 2, "k": 1},
+                                                                  {"op": "flat", "ins": [2]}, {"op": "lin", "ins": [3], "out": 2}]})
         cfg_ = {"pin": [2, 4, 8], "pa": [8, 2, 4], "pw": [0, 4, 8] if pc else [4, 8, 2], "wt": "pc" if pc else "pl"}
         build_no += 1
         opts = _options(pid, cfg_, prng, dim=dim)
